@@ -132,11 +132,22 @@ def gen_small(d, ref:Ref, tid, n, spread=12, allow_spanning=False, center=None, 
             center = d.randint(0, ln - 1)
     out = []
     seen = set()
-    kinds = kinds or ['snv', 'snv', 'ins', 'del', 'snv', 'mnv']
+    kinds = kinds or ['snv', 'snv', 'ins', 'del', 'snv', 'mnv', 'adj']
     for _ in range(n):
         p = max(1, min(ln - 2, center + d.randint(-spread, spread)))
         kind = d.choice(kinds)
         g0 = tg[p]
+        if kind == 'adj':
+            # two SNVs on neighbouring nucleotides (the tool merges them into an MNV)
+            for q in (p, p + 1):
+                if q < ln and tg[q] == g0 + (q - p):
+                    refa = gseq[tg[q]]
+                    alt = d.choice([x for x in 'ACGT' if x != refa])
+                    key = (tg[q], refa, alt)
+                    if key not in seen and not any(k[0] == tg[q] for k in seen):
+                        seen.add(key)
+                        out.append(dict(kind='small', tx=tid, g=tg[q], ref=refa, alt=alt))
+            continue
         if kind == 'snv':
             refa = gseq[g0]
             alt = d.choice([x for x in 'ACGT' if x != refa])
